@@ -230,6 +230,9 @@ func VerifC11EventsNative() {
 		prof = verifCompileErrProfile
 	}
 	data := `{"@id": "http://x/a", "@type": "http://a.ml/vocabularies/apiContract#EndPoint"}`
+	if v.ReplayBool("flag:v.flatten.empty") {
+		data = `{"@context": {"ex": "http://example.org/"}}`
+	}
 	if v.ReplayBool("flag:v.decode.err") {
 		data = "not json"
 	} else if v.ReplayBool("flag:v.flatten.err") {
